@@ -59,6 +59,10 @@ THEOREMS_C19_DST = [
      'dayGrid fails exactly with: assert when start >= end; else the class of the first wall time of the range, then of start, then of end, that no instant or two instants have'),
     (M, 'EAO.C19D.wallOrder_of_no_drop',
      'the order hypothesis holds for every zone table whose offsets never decrease in time'),
+    (M, 'EAO.C19D.wallOrder_of_regular',
+     'the order hypothesis holds for every REGULAR zone table (decidable Zone.regular: instants in order, each setting-back of the clock at most as large as the gaps to the neighbouring transitions)'),
+    (M, 'EAO.C19D.regular_witness',
+     'machine-checked: the CET 2021 table is regular and satisfies the order hypothesis; a table set forward 2 h and back 1 h within 1000 s is not regular and the order hypothesis fails for it'),
     (M, 'EAO.C19D.cet_spring_autumn_witness',
      'machine-checked instances: CET 2021 spring day of 23 h, autumn day of 25 h, 2-day step of 47 h; unit d: 23/24'),
     (M, 'EAO.C19D.midnight_change_witness',
